@@ -7,7 +7,7 @@
  *     <client> <k> req <name> <flags> | rel <name> | addmatch <rule hex> | rmmatch <rule hex> | hello
  *                  | sig <iface> <member> <arg0 hex>  | call <dest> <member>  | list <name>
  *        k = -1: no fault;  k >= 0: the (k+1)-th allocation made while the bus handles this command fails
- *     dump                        internal state of the bus (registry queues, rule counts)
+ *     dump                        internal state of the bus (registry queues, rule counts, owned-service counts)
  */
 #include <config.h>
 #include <dbus/dbus.h>
@@ -170,6 +170,20 @@ static void dump_state (void)
           if (svc) nr = bus_connection_get_n_match_rules (bus_service_get_primary_owners_connection (svc));
         }
       off += snprintf (op + off, sizeof op - off, i > 1 ? ",%d" : "%d", nr);
+    }
+  /* ... and how many services each connection believes it owns (unique name included; the names limit counts these) */
+  off += snprintf (op + off, sizeof op - off, "],\"nowned\":[");
+  for (i = 1; i <= NSLOT; i++)
+    {
+      int no = i <= NCLIENT && !uniq[i][0] && connected[i] ? -1 : 0;    /* -1: a client that was never told its name */
+      if (i <= NCLIENT && uniq[i][0])
+        {
+          DBusString s; BusService *svc;
+          _dbus_string_init_const (&s, uniq[i]);
+          svc = bus_registry_lookup (reg, &s);
+          if (svc) no = bus_connection_get_n_services_owned (bus_service_get_primary_owners_connection (svc));
+        }
+      off += snprintf (op + off, sizeof op - off, i > 1 ? ",%d" : "%d", no);
     }
   off += snprintf (op + off, sizeof op - off, "]}");
   emit_round (1, op);
